@@ -126,6 +126,27 @@ def frobenius_alias(prog, level):
     return dict(H.stats(), paths=len(res), sample="%s::frobenius_map out=a, %d residue classes" % (CLASS[level], period))
 
 
+def replay_any(res):
+    """native confirmation: word shifts through replay/driver (shiftalias), tower methods through C04's replayer"""
+    ce = res.counterexample or {}
+    if isinstance(ce, dict) and str(ce.get("kernel", "")).startswith("bigint_") and "shift" in ce["kernel"] and ce.get("backend") in ("A", "P64"):
+        from engine import replay
+        bits = int(ce["kernel"].split("_")[1])
+        d = ce["kernel"].split("_")[-1]
+        cmd = "shiftalias %d %s %d %s" % (bits, d, ce["amount"], ce["a"][2:])
+        out = replay.run([cmd], ce["backend"])[0]
+        ce["native_replay"] = {"command": cmd, "native_output": out[:420]}
+        if "aliased" in ce:
+            return out.startswith("DIFF")
+        # value obligation: the natively computed distinct-output result against the shifted integer
+        a = int(ce["a"], 16)
+        want = (a >> ce["amount"]) if d == "right" else (a << ce["amount"]) & ((1 << bits) - 1)
+        import re as _re
+        m = _re.search(r"distinct=([0-9a-f]+)", out)
+        return None if m is None else int(m.group(1), 16) != want
+    return c04.replay_tower(res)
+
+
 def include_in(chk):
     """this check's obligations registered inside a check of a layer above (framework.Check.include): everything except the two scalar-multiplication
     loops with result == base (a minute each; they stay in C18 and C06)"""
@@ -133,7 +154,7 @@ def include_in(chk):
                                            "src/bls12_381/fq12_cyclotomic.cpp", "src/bls12_381/curve.cpp", "src/bls12_381/curve_fast_multiply.cpp",
                                            "src/bls12_381/pairing.cpp", "src/bls12_381/bls12_381.cpp"], tag="c18")
     prog.demangle_all()
-    chk.replayer = c04.replay_tower
+    chk.replayer = replay_any
     register(chk, prog)
     import c18_words
     import c02
@@ -146,17 +167,7 @@ def include_in(chk):
 
 def main(argv=None):
     chk = Check("C18", "proof", argv)
-    def replayer(res):
-        ce = res.counterexample or {}
-        if str(ce.get("kernel", "")).startswith("bigint_") and "shift" in ce["kernel"] and ce.get("backend") in ("A", "P64"):
-            from engine import replay
-            bits = int(ce["kernel"].split("_")[1])
-            cmd = "shiftalias %d %s %d %s" % (bits, ce["kernel"].split("_")[-1], ce["amount"], ce["a"][2:])
-            out = replay.run([cmd], ce["backend"])[0]
-            ce["native_replay"] = {"command": cmd, "native_output": out[:200]}
-            return out.startswith("DIFF")
-        return c04.replay_tower(res)
-    chk.replayer = replayer
+    chk.replayer = replay_any
     prog = build.load_program("A", files=["src/bls12_381/fq2.cpp", "src/bls12_381/fq6.cpp", "src/bls12_381/fq12.cpp", "src/bls12_381/fq.cpp",
                                            "src/bls12_381/fq12_cyclotomic.cpp", "src/bls12_381/curve.cpp", "src/bls12_381/curve_fast_multiply.cpp",
                                            "src/bls12_381/pairing.cpp", "src/bls12_381/bls12_381.cpp"], tag="c18")
@@ -179,6 +190,8 @@ def main(argv=None):
                   "word layer (BigInt/Fp, res==a) is covered by C03 and c18_words; C wrappers forward pointers unchanged (C19)"]
     chk.trusted = ["same as C04/C05"]
     chk.assumptions = ["Fq-level methods are alias-safe (word layer, C02/C03)"]
+    # statelessness (no call leaves anything behind in a global or static) is a premise of every per-call obligation: C20's IR obligations
+    chk.include("C20")
     chk.run()
     chk.finish()
 
